@@ -124,6 +124,7 @@ func main() {
 			os.Exit(0)
 		}
 		d := ops.Run(q.Op)
+		d = fmt.Sprintf("\x01STEPS=%d\x01", simrt.SoloSteps) + d
 		how := "after returning"
 		if strings.Contains(d, "PANIC") {
 			how = "after a recovered panic"
@@ -191,7 +192,29 @@ func freshDigest(op ops.Op, c spec.Clock) (string, error) {
 		v.Detail["where"] = "single call (and its digest) in a fresh process"
 		return "", &oracleViolation{v}
 	}
-	return out.String(), nil
+	res := out.String()
+	if strings.HasPrefix(res, "\x01STEPS=") {
+		if i := strings.Index(res[1:], "\x01"); i > 0 {
+			n, _ := strconv.ParseUint(res[len("\x01STEPS="):i+1], 10, 64)
+			oracleSteps.Store(op.String(), n)
+			res = res[i+2:]
+		}
+	}
+	return res, nil
+}
+
+var oracleSteps sync.Map
+
+// callBudgetOf: a call may take 30 times the instrumented accesses it needs in a fresh process, and never less than
+// 40 million (every cache miss, eviction by neighbours and digest depth is far inside that).
+func callBudgetOf(call string) uint64 {
+	b := uint64(40_000_000)
+	if v, ok := oracleSteps.Load(call); ok {
+		if x := v.(uint64) * 30; x > b {
+			b = x
+		}
+	}
+	return b
 }
 
 type oracleViolation struct{ v spec.Violation }
